@@ -91,3 +91,39 @@ Ltac fold_bool := repeat match goal with
 Ltac split_ifs := repeat match goal with
   | |- context [if ?c then _ else _] => let E := fresh "E" in destruct c eqn:E
   end.
+
+(* ---------- sort.Search ---------- *)
+(* for a predicate that is defined on [0, n) and monotone there (once true, true from there on), the binary search
+   returns the least index where it holds, n if there is none *)
+Definition search_pre (n : Z) (f : Z -> option bool) (p : Z -> bool) : Prop :=
+  (forall x, 0 <= x < n -> f x = Some (p x)) /\ (forall x y, 0 <= x <= y -> y < n -> p x = true -> p y = true).
+
+Lemma go_bsearch_least fuel : forall i j n f p, search_pre n f p -> 0 <= i <= j -> j <= n ->
+  (Z.to_nat (j - i) < fuel)%nat ->
+  (forall x, 0 <= x < i -> p x = false) -> (j < n -> p j = true) ->
+  exists r, go_bsearch fuel i j f = Some r /\ i <= r <= j /\ (forall x, 0 <= x < r -> p x = false) /\ (r < n -> p r = true).
+Proof.
+  induction fuel as [|k IH]; intros i j n f p Pre Hij Hjn Hf Lo Hi; [lia|]. cbn [go_bsearch].
+  destruct (i <? j) eqn:C.
+  - set (h := (i + j) / 2). assert (Hh : i <= h < j) by (unfold h; split; [apply Z.div_le_lower_bound|apply Z.div_lt_upper_bound]; lia).
+    destruct Pre as [Tot Mono]. rewrite (Tot h) by lia. destruct (p h) eqn:Ph.
+    + destruct (IH i h n f p (conj Tot Mono)) as (r & E & R1 & R2 & R3); try lia; try assumption; try (intros; exact Ph).
+      exists r. rewrite E. repeat split; try lia; assumption.
+    + assert (Lo' : forall x, 0 <= x < h + 1 -> p x = false).
+      { intros x Hx. destruct (p x) eqn:Px; [|reflexivity].
+        destruct (Z.le_gt_cases i x).
+        - rewrite (Mono x h) in Ph by (try lia; assumption). discriminate.
+        - rewrite Lo in Px by lia. discriminate. }
+      destruct (IH (h + 1) j n f p (conj Tot Mono)) as (r & E & R1 & R2 & R3); try lia; try assumption.
+      exists r. rewrite E. repeat split; try lia; assumption.
+  - exists i. repeat split; try lia; try assumption. intros Hn. replace i with j by lia. apply Hi. lia.
+Qed.
+
+Lemma go_search_least n f p : 0 <= n -> search_pre n f p ->
+  go_search_ok n f = true /\
+  0 <= go_search n f <= n /\ (forall x, 0 <= x < go_search n f -> p x = false) /\ (go_search n f < n -> p (go_search n f) = true).
+Proof.
+  intros Hn Pre. unfold go_search_ok, go_search, go_search_opt.
+  destruct (go_bsearch_least (S (Z.to_nat n)) 0 n n f p Pre ltac:(lia) ltac:(lia) ltac:(lia)) as (r & -> & R1 & R2 & R3); try lia.
+  repeat split; try lia; assumption.
+Qed.
